@@ -33,7 +33,11 @@ def observe(x, perm_seed):
     ev = {"cell": x["cell"], "atoms": atoms, "obs": [], "exc": "none"}
     try:
         with contextlib.redirect_stderr(io.StringIO()):
-            a = Atoms(elements=[t["el"] for t in atoms], positions=np.array([t["pos"] for t in atoms], dtype=float) / 100.0,
+            els = [t["el"] for t in atoms]
+            uniq = list(dict.fromkeys(els))
+            # explicit type tables: the radius table has entries (D) that the mass table lacks, and masses play no role here
+            a = Atoms(atom_types=[uniq.index(e) for e in els], atom_type_elements=uniq, atom_type_masses=[1.0] * len(uniq),
+                      atom_type_labels=uniq, positions=np.array([t["pos"] for t in atoms], dtype=float) / 100.0,
                       cell=(np.array(x["cell"], dtype=float) / 100.0) if x["cell"] else None)
             b = detect_bonds(a)
         ev["obs"] = [[int(i), int(j)] for i, j in np.array(b).reshape(-1, 2)]
